@@ -5,6 +5,7 @@
 #define EXEC_NO_MAIN
 #include "exec.cpp"
 #include <terminalpp/stdout_channel.hpp>
+#include <cerrno>
 #include <csignal>
 #include <unistd.h>
 #include <cstdlib>
@@ -25,6 +26,7 @@ int main()
         if (::write(2, "READY\n", 6) != 6) return 4;
     }
     bool const fmt_state = std::getenv("VERIF_COUT_STATE") != nullptr;
+    bool const errno_state = std::getenv("VERIF_ERRNO") != nullptr;
     std::string line;
     std::getline(std::cin, line);
     auto parts = split(line, ';');
@@ -43,6 +45,7 @@ int main()
             std::cout.setf(std::ios::left | std::ios::hex | std::ios::showbase | std::ios::uppercase | std::ios::boolalpha);
             std::cout.precision(3);
         }
+        if (errno_state) errno = (i % 2) ? EAGAIN : EINTR;      // left over from something unrelated the program did
         if (!apply_terminal_op(op, r, t)) {
             return 3;
         }
